@@ -313,6 +313,12 @@ func run(c *runner.Ctx) {
 			{"url-bare-key-before-value", func() error { return valid.Url("http://h/p?k&other=tom", rm) }, true, 0},
 			{"url-present", func() error { return valid.Url("http://h/p?k=x", rm) }, false, 0},
 			{"url-present-last", func() error { return valid.Url("http://h/p?other=&k=x", rm) }, false, 0},
+			{"url-present-percent", func() error { return valid.Url("http://h/p?k=100%25&z=1", rm) }, false, 0},
+			{"url-present-percent-escaped-whole", func() error { return valid.Url("http%3A%2F%2Fh%2Fp%3Fk%3D100%2525", rm) }, false, 0},
+			{"url-present-semicolon", func() error { return valid.Url("http://h/p?a=1&k=a;b", rm) }, false, 0},
+			{"url-present-semicolon-escaped", func() error { return valid.Url("http://h/p?k=a%3Bb", rm) }, false, 0},
+			{"url-present-plus", func() error { return valid.Url("http://h/p?k=a+b", rm) }, false, 0},
+			{"url-present-slash-colon", func() error { return valid.Url("http://h/p?k=http://x/y:z", rm) }, false, 0},
 			{"url-present-after-bare", func() error { return valid.Url("http://h/p?other&k=x", rm) }, false, 0},
 		}
 		for _, m := range cases {
